@@ -40,13 +40,16 @@ func concRecover(f func()) (msg string) {
 func TestC17Concurrent(t *testing.T) {
 	defer vlib.Done()
 	base := uint64(vlib.Seed)*1_000_003 + uint64(vlib.Shard)*7919
-	iters := vlib.N(40, 150)
+	iters := vlib.N(100, 400) // dealing batches per goroutine
+	if raceBuild {
+		iters = vlib.N(8, 30) // the detector needs no luck with the schedule, and big-integer code is ~10x slower under it
+	}
 
 	// ---- secret sharing
 	for gi, gr := range groups() {
 		sub := "concurrent/ss/" + gr.name
 		g, r := gr.g, gr.r
-		for ti, tt := range []int{1, 7} {
+		for ti, tt := range []int{2, 5} {
 			seed := base + uint64(gi*16+ti)
 			sb := make([]byte, (r.BitLen()+7)/8+8)
 			vlib.ExpandInto(sb, seed)
@@ -64,8 +67,37 @@ func TestC17Concurrent(t *testing.T) {
 				return
 			}
 			com := ss.CommitSecret()
-			n := tt + 3
+			n := tt + 2
+			// inverse denominators of the Lagrange basis, so that the reference evaluation needs no inversion
+			wts := make([]*big.Int, len(xs))
+			for j := range xs {
+				den := big.NewInt(1)
+				for i := range xs {
+					if i != j {
+						den.Mul(den, new(big.Int).Sub(xs[j], xs[i])).Mod(den, r)
+					}
+				}
+				wts[j] = new(big.Int).ModInverse(den, r)
+			}
+			ref := func(x *big.Int) *big.Int {
+				sum := new(big.Int)
+				for j := range xs {
+					term := new(big.Int).Mul(ys[j], wts[j])
+					for i := range xs {
+						if i != j {
+							term.Mul(term, new(big.Int).Sub(x, xs[i])).Mod(term, r)
+						}
+					}
+					sum.Add(sum, term)
+				}
+				return sum.Mod(sum, r)
+			}
+			if ref(big.NewInt(0)).Cmp(secret) != 0 || ref(big.NewInt(77)).Cmp(refEval(r, xs, ys, big.NewInt(77))) != 0 {
+				fmt.Println("SELFTEST-FAIL c17 fast reference evaluation")
+				t.Fatal("SELFTEST-FAIL c17 fast reference evaluation")
+			}
 			errs := make([]string, concK)
+			dealt := make([][]secretsharing.Share, concK)
 			start := make(chan struct{})
 			var wg sync.WaitGroup
 			for k := 0; k < concK; k++ {
@@ -76,9 +108,11 @@ func TestC17Concurrent(t *testing.T) {
 					defer wg.Done()
 					<-start
 					errs[k] = concRecover(func() {
-						for it := 0; it < iters && errs[k] == ""; it++ {
+						// a tight dealing loop (the window in which the goroutines overlap), with an occasional
+						// Verify against the shared commitment and Recover from the batch just dealt
+						for it := 0; it < iters; it++ {
 							var shares []secretsharing.Share
-							if (k+it)%3 == 0 {
+							if (k+it)%4 == 0 {
 								if k%2 == 0 {
 									shares = ss.Share(uint(n))
 								} else {
@@ -86,7 +120,7 @@ func TestC17Concurrent(t *testing.T) {
 								}
 							} else {
 								for j := 0; j < n; j++ {
-									id := sc(g, big.NewInt(int64(1+k*100000+it*100+j)))
+									id := sc(g, big.NewInt(int64(1+k*1000000+it*100+j)))
 									if k%2 == 0 {
 										shares = append(shares, ss.ShareWithID(id))
 									} else {
@@ -94,21 +128,11 @@ func TestC17Concurrent(t *testing.T) {
 									}
 								}
 							}
-							for j, sh := range shares {
-								id := scalarToBig(g, sh.ID)
-								if want := refEval(r, xs, ys, id); scalarToBig(g, sh.Value).Cmp(want) != 0 {
-									errs[k] = fmt.Sprintf("iteration %d: share %d with id %v has value %v, the polynomial gives %v", it, j, id, scalarToBig(g, sh.Value), want)
-									return
-								}
-								if !secretsharing.Verify(uint(tt), sh, com) {
-									errs[k] = fmt.Sprintf("iteration %d: share %d with id %v fails Verify against the shared commitment", it, j, id)
-									return
-								}
-							}
-							got, err := secretsharing.Recover(uint(tt), shares[(k+it)%2:])
-							if err != nil || !got.IsEqual(sc(g, secret)) {
-								errs[k] = fmt.Sprintf("iteration %d: Recover = %v, err=%v", it, got, err)
-								return
+							dealt[k] = append(dealt[k], shares...)
+							if it%32 == k%32 {
+								// Verify / Recover while the others deal; the values themselves are compared after the join
+								_ = secretsharing.Verify(uint(tt), shares[it%n], com)
+								_, _ = secretsharing.Recover(uint(tt), shares)
 							}
 						}
 					})
@@ -117,7 +141,25 @@ func TestC17Concurrent(t *testing.T) {
 			close(start)
 			wg.Wait()
 			for k, e := range errs {
-				vlib.EvalN(sub, int64(iters))
+				vlib.EvalN(sub, int64(iters)) // dealing batches
+				for j, sh := range dealt[k] {
+					if e != "" {
+						break
+					}
+					id := scalarToBig(g, sh.ID)
+					if want := ref(id); scalarToBig(g, sh.Value).Cmp(want) != 0 {
+						e = fmt.Sprintf("share %d of this goroutine, id %v, has value %v; the polynomial gives %v", j, id, scalarToBig(g, sh.Value), want)
+					}
+				}
+				if e == "" {
+					// a sample of the concurrently dealt shares must verify and recover
+					last := dealt[k][len(dealt[k])-n:]
+					if !secretsharing.Verify(uint(tt), last[0], com) {
+						e = "a concurrently dealt share fails Verify against the commitment"
+					} else if got, err := secretsharing.Recover(uint(tt), last[1:]); err != nil || !got.IsEqual(sc(g, secret)) {
+						e = fmt.Sprintf("Recover from concurrently dealt shares = %v, err=%v", got, err)
+					}
+				}
 				if e != "" {
 					vlib.ReportDirect(t, "C17/concurrent/ss/shared-secretsharing", fmt.Sprintf("group=%s t=%d n=%d goroutine %d of %d: %s", gr.name, tt, n, k, concK, e),
 						map[string]interface{}{"group": gr.name, "t": tt, "goroutine": k})
